@@ -12,6 +12,7 @@ MODULES = [
  ("CoseModel.tla", "life cycle of a Sign1 / untagged Sign1 / standalone Signature object as a state machine (`Step`): sign, verify, marshal, unmarshal, caller edits, bytes rewritten in transit; symbolic keys/signatures; nine properties model-checked"),
  ("CsModel.tla", "life cycle of a countersignature (RFC 9338): parent, countersignature object, abbreviated bytes, wire; making (full/abbreviated), verifying, attaching, serialising, parsing, caller edits, bytes rewritten in transit, moving signature bytes between the two forms; nine properties model-checked (core scope exhaustively, full scope to a bounded number of steps)"),
  ("SignModel.tla", "life cycle of a COSE_Sign message with two signature slots: signing with a list of signers (failing / empty-handed ones), verifying with lists of 1-3 verifiers, serialising, parsing, caller edits of body, slot signatures (emptied, garbage, the other slot's bytes) and slot algorithms; eight properties model-checked (core scope exhaustively: 95 256 states / 22.4 M transitions; full scope to a bounded depth)"),
+ ("KeyModel.tla", "life cycle of a COSE_Key object: built from a private / public key (EC2 P-256, OKP Ed25519, two pairs each), caller restrictions (alg, key_ops incl. empty, private part dropped), serialise, parse, Signer(), Verifier(), sign, verify with real signatures; five properties model-checked exhaustively (2 192 400 states / 52.6 M transitions)"),
  ("CoseKey.tla", "COSE_Key: `AcceptedKeyOK`, `SizesOK`, `CurveOKFor`, `DeriveAlg`, `SignerAllowed`, `VerifierAllowed`"),
  ("CoseCrypto.tla", "`NewSignerVerdict` / `NewVerifierVerdict` decision tables, `HashOf`, `RenderRS` / `I2OSP`"),
  ("Mutations.tla, CoseBases.tla", "structural mutation operators (Appendix B), valid re-spellings, base message trees"),
@@ -35,8 +36,8 @@ PIPE = {
  "C11": "Gen_C11 -> memflow -> Trace_C11; SignModel MC + Gen_Sg -> memflow -> Trace_Sg[C11:]",
  "C12": "Gen_C12 -> memflow (+ sessions: one world, one verifier) -> Trace_C12",
  "C13": "Gen_C13 -> hdrgrid -> Trace_C13",
- "C14": "Gen_C14 (toy-field MC + fixtures) + keyrt driver -> keyrt -> Trace_C14",
- "C15": "Gen_C15 -> keydec -> Trace_C15",
+ "C14": "Gen_C14 (toy-field MC + fixtures) + keyrt driver -> keyrt -> Trace_C14; KeyModel stage [C14:]",
+ "C15": "Gen_C15 -> keydec -> Trace_C15; KeyModel MC + Gen_Key -> memflow -> Trace_Key[C15:]",
  "C16": "Gen_C16 -> ecdsa-render / ecdsa-native / ecdsa-accept -> Trace_C16",
  "C17": "Gen_C17 -> factory / digest -> Trace_C17",
  "C18": "Gen_C18 (thread model MC, schedules) -> conc (gated goroutines); Gen_C18Seq -> memflow; racestress under -race -> Trace_C18",
